@@ -25,7 +25,7 @@ RULE = (
     "non-trivial = parameter-dependent covariance (x or model-relative source) or an active limit or a fixed parameter; distinct by case hash"
 )
 ASSUMPTIONS = [
-    "well-posed problems only: data drawn from the model, start within the basin of the truth; cases whose reference Hessian (at the optimum over interior free parameters, and at any lower point found over all free parameters) is not positive definite or has cond > 1e4 are discarded and counted",
+    "well-posed problems only: data drawn from the model with independent noise (the base y source is uncorrelated; correlated sources come on top), start within the basin of the truth; a backend disagreement where each backend started at the other optimum stays there (two stable local minima) is discarded and counted; cases whose reference Hessian (at the optimum over interior free parameters, and at any lower point found over all free parameters) is not positive definite or has cond > 1e4 are discarded and counted",
     "local-minimum clause: violation iff an admissible point (probes at +-{0.1,0.5,1} sigma per free axis, 8 random directions, Nelder-Mead polish) has reference cost lower than at the reported optimum by more than 1e-3 (iminuit) / 5e-3 (scipy)",
     "iterative algorithm: the local-minimum clause is replaced by the fixed-point clause (minimising the cost with the covariance frozen at the reported optimum must stay within 2e-2 reference sigma)",
     "cross-backend clause uses sigma from the reference Hessian over interior free parameters (1e-1 sigma = sum of the per-backend tolerances of C05, rounded up); a parameter on a limit must be on the same limit for both backends",
@@ -83,12 +83,13 @@ def gen_case(rng, tier, idx, shard, nshards):
         spec = (gen.gen_xy_spec if ftype == "xy" else gen.gen_indexed_spec)(rng, family=fam, cost=cost, counts=counts, n=npts, noise=0.04, counts_from_model=8.0)
         ys = float(np.mean(np.abs(spec.get("y") or spec["data"])) + 0.3)
         if not counts:
-            setup.append(gen.gen_source(rng, npts, ftype, "e0", yscale=ys * 0.5, force={"axis": "y", "reference": "data", "kind": "simple", "shape": "vec", "relative": False}))
+            setup.append(gen.gen_source(rng, npts, ftype, "e0", yscale=ys * 0.5, force={"axis": "y", "reference": "data", "kind": "simple", "shape": "vec", "relative": False, "corr": 0.0}))
             r = rng.random()
             if r < 0.35:
                 setup.append(["add_error", dict({"err": float(np.round(rng.uniform(0.03, 0.1), 4)), "relative": True, "reference": "model", "corr": float(rng.choice([0.0, 0.0, 0.3])), "name": "e1"}, **({"axis": "y"} if ftype == "xy" else {}))])
             elif r < 0.6 and ftype == "xy":
-                setup.append(["add_error", {"axis": "x", "err": float(np.round(rng.uniform(0.03, 0.12), 4)), "relative": False, "reference": "data", "corr": 0.0, "name": "e1"}])
+                # declared on the data or on the model (x_model = x_data: the same numbers, but kept by another container)
+                setup.append(["add_error", {"axis": "x", "err": float(np.round(rng.uniform(0.03, 0.12), 4)), "relative": False, "reference": str(rng.choice(["data", "model"])), "corr": 0.0, "name": "e1"}])
             elif r < 0.75:
                 setup.append(gen.gen_source(rng, npts, ftype, "e1", yscale=ys * 0.4, force={"axis": "y", "reference": "data", "kind": "matrix", "relative": False}))
     spec["dea"] = dea
@@ -384,10 +385,31 @@ def run_case(ctx, case):
                 if abs(ca - cb) <= 1e-2 and np.allclose(ma, mbv, rtol=1e-3, atol=1e-3 * (np.abs(ma).max() + 1e-300)):
                     agree = True
                     ctx.note("backends-agree-up-to-model-symmetry")
+            if not agree and not premature.get("scipy") and not premature.get("iminuit") and two_attractors(case, names, pa, pb, s):
+                # the cost has two separate local minima next to the start values and each backend, started in the other's minimum,
+                # stays there: not the well-posed single-basin problem of the quantifier
+                ctx.discard("backends-in-different-local-minima-both-stable")
+                return nontrivial
             ctx.check("backends-agree", agree, lambda: {"iminuit": pa, "scipy": pb, "deviation_in_sigma_ref": dev, "sigma_ref": s, "tolerance": tolb}, key=lambda: "C06/scipy-backend-accepts-unconverged-result" if premature.get("scipy") else None)
             if dev.size:
                 ctx.worst["backend_deviation_sigma"] = max(ctx.worst.get("backend_deviation_sigma", 0.0), float(dev.max()))
     return nontrivial
+
+
+def two_attractors(case, names, pa, pb, s):
+    """explain-check for a backend disagreement: True iff iminuit started at scipy's optimum and scipy started at iminuit's optimum
+    both stay where they were started (within 0.1 reference sigma)"""
+    try:
+        for minimizer, start, in (("iminuit", pb), ("scipy", pa)):
+            c2 = dict(case, start={nm: float(v) for nm, v in zip(names, start) if nm not in case["fixed"]})
+            mb = run_backend(c2, minimizer)
+            p2 = np.array(mb.fit.parameter_values, dtype=float)
+            idx = [i for i, nm in enumerate(names) if nm not in case["fixed"] and s[i] > 0]
+            if np.any(np.abs(p2 - start)[idx] > 0.1 * s[idx]):
+                return False
+        return True
+    except Exception:
+        return False
 
 
 def premature_scipy(case, mb, names, fixed, limited, tol):
